@@ -5,6 +5,7 @@ import (
 	"encoding/json"
 	"errors"
 	"fmt"
+	"math/big"
 	"net/url"
 	"strings"
 	"time"
@@ -117,22 +118,25 @@ func (d *destination) unlock(now, end common.Timestamp, dry bool) (
 		full   = d.full(end)   // full time range left
 		period = d.period(now) // current vesting period
 		ending = now == end    // pool ending, should drain all
-
-		ratio = 1.0 // vesting ratio for the period
 	)
 	left, err := d.left() // tokens left
 	if err != nil {
 		return 0, err
 	}
 
-	// also, the ending protects against zero division error
+	// Exact integer arithmetic: floor(left * period / full). A float64 ratio
+	// loses precision (above 2^53 units, or near an integer boundary) and can
+	// vest more than the linear schedule or even more than the amount left.
+	// The ending also protects against zero division error.
+	amount = left
 	if !ending {
-		ratio = float64(period) / float64(full)
-	}
-
-	amount, err = currency.MultFloat64(left, ratio)
-	if err != nil {
-		return 0, err
+		if period < 0 || full <= 0 {
+			return 0, currency.ErrNegativeValue
+		}
+		var v = new(big.Int).SetUint64(uint64(left))
+		v.Mul(v, big.NewInt(int64(period)))
+		v.Quo(v, big.NewInt(int64(full)))
+		amount = currency.Coin(v.Uint64())
 	}
 
 	if !dry {
